@@ -286,6 +286,12 @@ def check_fit_emit(ctx, replay, out):
                     ctx.mismatch("fitEmit:fit_emits_wf-hypotheses-true-but-not-StepWF", replay, True, g)
             else:
                 ctx.count("fit emit: unplacedWfRun false (%s slice)" % cls)
+        # delete_emits_valid_payload (Props/C11.lean): detB, leafOkB, valid document with creatable element types =>
+        # the payload of the step emitted for a deletion is valid; checked on the real step with the independent validator
+        if cls == "empty" and rel.get("hyp") and rel.get("leafOk"):
+            ctx.count("fit emit: hypotheses of delete_emits_valid_payload hold")
+            if replay.get("payload") is not None:
+                ctx.mismatch("fitEmit:delete-payload-invalid", replay, None, replay.get("payload"))
         if rel.get("inStep") is not None:
             ctx.count("fit emit: in-step invariant over the loop (%s slice): %s" % (cls, rel["inStep"]))
             if rel["inStep"] and g.get("wf") is not True:
